@@ -809,3 +809,32 @@ def total_loop_obligations(ctx, quals=None, scan=("xandikos.store.Store.get_type
                           "the listing, or do not count for the result" % (fi.short, src(bad[0].ast)[:30] if bad and bad[0].ast is not None else "", bad[0].lineno if bad else 0,
                                                                         "" if q not in scan else " without having found what it looks for")))
     return obs
+
+
+
+def served_text(ctx, cls_q: str):
+    """The expressions whose value a live property class writes to ``el.text`` in the ``get_value`` its instances
+    run (awaits unwrapped, local names and new helpers / template-method hooks followed):
+    ``(fi, [(leaf expression, node)])``."""
+    from ..dataflow import origins
+    fi = ctx.home_method(cls_q, "get_value")
+    cfg = ctx.cfg(fi)
+    du = DefUse(cfg)
+    el = fi.params[3] if len(fi.params) > 3 else "el"
+    out = []
+    for n in cfg.stmt_nodes():
+        a = n.ast
+        if n.kind == "stmt" and isinstance(a, ast.Assign) and any(dotted(t) == el + ".text" for t in a.targets):
+            for o in origins(du, n, unwrap_await(a.value)):
+                leaf = unwrap_await(o.leaf) if o.leaf is not None else None
+                out.append((leaf if o.kind in ("expr", "elem") else None, n))
+    return fi, out
+
+
+def serves_resource_call(ctx, cls_q: str, getter: str):
+    """(fi, ok): every value written to ``el.text`` by *cls_q*'s get_value is ``<resource param>.<getter>()``."""
+    fi, vals = served_text(ctx, cls_q)
+    rp = fi.params[2] if len(fi.params) > 2 else "resource"
+    ok = bool(vals) and all(isinstance(v, ast.Call) and dotted(v.func) == "%s.%s" % (rp, getter) and not v.args and not v.keywords
+                            for v, _n in vals)
+    return fi, ok
